@@ -3,6 +3,7 @@ package main
 import (
 	"encoding/json"
 	"fmt"
+	"sort"
 
 	"github.com/jamespfennell/gtfs"
 )
@@ -104,7 +105,9 @@ func (p *rtProp) Check(in map[string]any, model json.RawMessage) Verdict {
 		v.Disagree = "model result unreadable"
 		return v
 	}
-	v.Disagree = diff("", m, normAny(canon))
+	// no property states in which order Vehicles come out (only that the order is the same every time, which C06
+	// observes by repetition): they are compared as a multiset, so that a different but fixed order is not an alarm
+	v.Disagree = diff("", vehiclesAsMultiset(m), vehiclesAsMultiset(normAny(canon)))
 	for i, o := range ga(in, "orders") {
 		if v.Disagree != "" || i >= len(mr.Perms) {
 			break
@@ -115,7 +118,7 @@ func (p *rtProp) Check(in map[string]any, model json.RawMessage) Verdict {
 		}
 		cp, _ := canonOf(in, rp)
 		mp, _ := normBytes(mr.Perms[i])
-		if d := diff(fmt.Sprintf("perm[%d]", i), mp, normAny(cp)); d != "" {
+		if d := diff(fmt.Sprintf("perm[%d]", i), vehiclesAsMultiset(mp), vehiclesAsMultiset(normAny(cp))); d != "" {
 			v.Disagree = d
 		}
 	}
@@ -126,6 +129,26 @@ func (p *rtProp) Check(in map[string]any, model json.RawMessage) Verdict {
 		v.Trivial = trivial
 	}
 	return v
+}
+
+// vehiclesAsMultiset returns the result with its "vehicles" array sorted by canonical text.
+func vehiclesAsMultiset(res any) any {
+	m, ok := res.(map[string]any)
+	if !ok {
+		return res
+	}
+	vs, ok := m["vehicles"].([]any)
+	if !ok {
+		return res
+	}
+	out := map[string]any{}
+	for k, x := range m {
+		out[k] = x
+	}
+	sorted := append([]any{}, vs...)
+	sort.SliceStable(sorted, func(i, j int) bool { return mustJSON(sorted[i]) < mustJSON(sorted[j]) })
+	out["vehicles"] = sorted
+	return out
 }
 
 func (p *rtProp) withFlag(c map[string]any) map[string]any {
